@@ -253,6 +253,13 @@ def run(shard, ctx):
             data = b">big one\n" + big + rng.choice([b"\n", b"\r\n"]) + b">after\nACGTNNAC\nGT\n"
             check_file(ctx, data, rng.choice([1000, 65536, 250000]), scratch, roundtrip=True)
             continue
+        if i == 2 and shard["index"] % 4 == 1:
+            # a few thousand short records (every record of the file has its line in the cache, whatever their number)
+            n_ = rng.randint(2001, 2400)
+            data = b"".join(b">s%05d\n" % k + rng.choice([b"ACGTAC", b"ACNNGT", b"GGGTTTAAAC"]) + b"\n" for k in range(n_))
+            ctx.count("class:more-than-2000-records")
+            check_file(ctx, data, 250000, scratch, roundtrip=True)
+            continue
         data, meta = gfa.gen_fasta(rng)
         check_file(ctx, data, buffers(rng, meta), scratch, roundtrip=(i % 3 == 0), other=gfa.gen_fasta(rng)[0] if i % 6 == 0 else None)
 
@@ -278,6 +285,7 @@ def gates(c, tier):
         "random-access:chunked:strand0": 5000,
         "cache-roundtrip": 300,
         "class:sequence-line-longer-than-1MiB": 2,
+        "class:more-than-2000-records": 2,
         "cache-replaced-file-equal-mtime": 200,
     }
     out = [f"{k}>={v} (got {c.get(k, 0)})" for k, v in need.items() if c.get(k, 0) < v]
